@@ -199,6 +199,55 @@ def r02_1(ctx: Ctx, rep: Report) -> None:  # noqa: C901
     rep.floor(9, "item adoption branches")
 
 
+def normalised_platform_only(ctx: Ctx, rep: Report, rid: str = "R02.9") -> None:
+    """A function that normalises a platform argument with init_platform (aliases such as "cnx", "cisco_ios" become
+    "nxos", "ios") uses the raw argument for nothing else: a comparison with a platform literal, or handing the raw
+    spelling on to a child, treats an alias as an unknown platform."""
+    rep.rule(rid)
+    n = 0
+    for f in sorted(ctx.prog.funcs, key=lambda x: x.qualname):
+        norm_calls = [c for c in own_nodes(f.node) if isinstance(c, ast.Call) and src(c.func).split(".")[-1] == "init_platform"]
+        if not norm_calls:
+            continue
+        a = f.node.args
+        params = {x.arg for x in a.posonlyargs + a.args + a.kwonlyargs}
+        raw = set()
+        for c in norm_calls:
+            for v in list(c.args) + [k.value for k in c.keywords if k.arg is not None]:
+                if isinstance(v, ast.Name) and v.id in params:
+                    raw.add(v.id)
+        if not raw:
+            continue
+        cfg = ctx.cfg(f)
+        for prm in sorted(raw):
+            n += 1
+            rep.instance()
+            # nodes after which the name holds something else than the raw argument
+            rebinds = [nd for nd in cfg.live if nd.ast is not None and nd.kind in ("stmt", "for") and any(isinstance(x, ast.Name) and x.id == prm and isinstance(x.ctx, ast.Store) for x in ast.walk(nd.ast if nd.kind == "stmt" else nd.ast.target))]
+            raw_reach = cfg.reachable(cfg.entry, avoid=lambda m: m in rebinds, labels_avoid=())
+            bad = None
+            for nd in cfg.live:
+                if nd.ast is None or nd.kind not in ("stmt", "cond", "for") or (nd not in raw_reach and nd not in rebinds):
+                    continue
+                root = nd.ast.iter if nd.kind == "for" else nd.ast
+                inside_norm = {id(x) for c in norm_calls for x in ast.walk(c)}
+                for x in ast.walk(root):
+                    if isinstance(x, ast.Name) and x.id == prm and isinstance(x.ctx, ast.Load) and id(x) not in inside_norm:
+                        par = getattr(x, "_parent", None)
+                        # harmless: error messages and type checks of the raw value
+                        if isinstance(par, ast.FormattedValue) or (isinstance(par, ast.Call) and src(par.func) in ("isinstance", "str", "repr", "type")):
+                            continue
+                        if nd in rebinds and nd not in raw_reach:
+                            continue
+                        bad = bad or (nd, x)
+            if bad is not None:
+                nd, x = bad
+                rep.violation(f.qualname, f"raw `{prm}` used in {snippet(nd.ast if nd.kind != 'for' else nd.ast.iter, 60)}", f"the platform argument is used before/without normalisation although the function normalises it with init_platform: an accepted alias (\"cnx\", \"cisco_nxos\", \"cisco_ios\") is treated as another platform", where(f, x), inp="acl.platform = 'cnx' on an ACL with 'eq 1 2'")
+            else:
+                rep.ok(f"{f.qualname}: `{prm}`", "only init_platform reads the raw argument", nontrivial=False, where=where(f))
+    rep.floor(5, "functions that normalise a platform argument")
+
+
 def render_after_switch(ctx: Ctx, rep: Report, rid: str = "R02.8") -> None:
     """A platform setter that converts by re-parsing its own text renders that text *after* the new platform is stored
     (the getter then writes the spelling of the new platform, which the setter parses under the same platform).  Text
@@ -301,6 +350,8 @@ def r02_3(ctx: Ctx, rep: Report) -> None:
                         rep.ok(f"{f.qualname}: {snippet(n)}", f"table keys {sorted(tab)} cover every platform init_platform can return", where=where(f, n))
                     else:
                         rep.violation(f.qualname, snippet(n), f"the platform-indexed table has rows {sorted(tab)} but the platform can be any of {sorted(rets)}: KeyError when rendering", where(f, n), inp="an object on the missing platform rendered")
+                elif isinstance(tab, dict) and isinstance(n.slice, ast.Constant) and n.slice.value in tab:
+                    rep.ok(f"{f.qualname}: {snippet(n)}", "constant key of a folded module table", nontrivial=False, where=where(f, n))
                 else:
                     rep.violation(f.qualname, snippet(n), "partial lookup in a renderer: an unknown key or index raises instead of falling back to the number", where(f, n), inp="a port or protocol number without a name")
         esc = ctx.excs.escapes(f)
@@ -315,6 +366,7 @@ def r02_3(ctx: Ctx, rep: Report) -> None:
 def run(ctx: Ctx, rep: Report, tier: str) -> None:
     r02_1(ctx, rep)
     render_after_switch(ctx, rep)
+    normalised_platform_only(ctx, rep)
     # R02.2: conversion to NX-OS splits multi-port entries first; the split itself must keep every item (C19's rules)
     from . import c19
     from .c01 import field_isolation
